@@ -8,6 +8,7 @@ package main
 
 import (
 	"fmt"
+	"go/constant"
 	"go/token"
 
 	"golang.org/x/tools/go/ssa"
@@ -78,15 +79,15 @@ func (m *Model) RunLoadErr(s *Sink, rule string) {
 			for _, ent := range entries {
 				entry := ent.from
 				seen := map[*ssa.BasicBlock]bool{}
-				var walk func(b *ssa.BasicBlock)
-				walk = func(b *ssa.BasicBlock) {
+				var walk func(b, pred *ssa.BasicBlock)
+				walk = func(b, pred *ssa.BasicBlock) {
 					if bad != "" || seen[b] {
 						return
 					}
 					seen[b] = true
 					for _, li := range loops {
 						if b == li.header && li.body[entry] {
-							bad = "the loop continues with the next item at " + m.InstrPos(b.Instrs[0])
+							bad = fmt.Sprintf("the loop continues with the next item at %s (entered at block %d -> %d)", m.InstrPos(b.Instrs[0]), ent.from.Index, ent.to.Index)
 							return
 						}
 					}
@@ -106,7 +107,28 @@ func (m *Model) RunLoadErr(s *Sink, rule string) {
 						}
 						return
 					}
-					for _, sc := range b.Succs {
+					// a short-circuit condition (`a == nil && b == nil`) arrives as a phi: coming from the edge on which its
+					// value is a constant, only one successor is possible
+					only := -1
+					if iff, isIf := b.Instrs[len(b.Instrs)-1].(*ssa.If); isIf && pred != nil {
+						if phi, isPhi := iff.Cond.(*ssa.Phi); isPhi && phi.Block() == b {
+							for i, p := range b.Preds {
+								if p == pred {
+									if k, isK := phi.Edges[i].(*ssa.Const); isK && k.Value != nil && k.Value.Kind() == constant.Bool {
+										if constant.BoolVal(k.Value) {
+											only = 0
+										} else {
+											only = 1
+										}
+									}
+								}
+							}
+						}
+					}
+					for si, sc := range b.Succs {
+						if only >= 0 && si != only {
+							continue
+						}
 						// an edge on which the error is identified as the sentinel that means "fine" (err == io.EOF) is not a failure path
 						sentinel := false
 						for _, f := range expandFacts(edgeFact(b, sc)) {
@@ -123,11 +145,11 @@ func (m *Model) RunLoadErr(s *Sink, rule string) {
 							}
 						}
 						if !sentinel {
-							walk(sc)
+							walk(sc, b)
 						}
 					}
 				}
-				walk(ent.to)
+				walk(ent.to, ent.from)
 			}
 			if bad == "" {
 				s.OK(rule, key, m.InstrPos(e.call), "every path entered under a non-nil error ends in a return carrying an error")
